@@ -4,7 +4,7 @@
    occur in order" is a property of that library; it is checked on every generated case (predicate
    genuine_match of Check/Eng.v), not proved: C07 is partial in exactly that clause. *)
 From Coq Require Import List ZArith NArith Bool Floats Sorting.Sorted.
-From WTF Require Import Model.Validate Model.Text Model.Platform Model.Engine Proofs.EngineProofs.
+From WTF Require Import Model.Validate Model.Text Model.Platform Model.Engine Model.Fuzzy Proofs.EngineProofs Proofs.FuzzyProofs.
 Import ListNotations.
 
 (* enabling typo tolerance never changes an answer that exists *)
@@ -36,7 +36,16 @@ Theorem fuzzy_never_empty : forall E cmds o i c raw,
   nth i (e_fuzzy E) None = Some raw -> fuzzy_search E cmds o <> [].
 Proof. exact fuzzy_never_empty. Qed.
 
+(* the matcher itself (Model/Fuzzy.v: sahilm/fuzzy transcribed for ASCII text, compared with the library's raw scores on
+   every engine case): on a target without NUL bytes every match it reports is genuine - as many positions as the pattern
+   has runes, strictly increasing, each holding the corresponding pattern rune up to ASCII letter case *)
+Theorem matcher_matches_are_genuine : forall pattern target s idx, nul_free target = true ->
+  score_target pattern target = FMatch s idx ->
+  length idx = length pattern /\ genuine_fwd pattern target 0 (-1) idx.
+Proof. exact matcher_genuine. Qed.
+
 Print Assumptions fuzzy_only_when_empty.
 Print Assumptions fuzzy_results_genuine.
 Print Assumptions fuzzy_best_first.
 Print Assumptions fuzzy_never_empty.
+Print Assumptions matcher_matches_are_genuine.
